@@ -261,6 +261,9 @@ func (am *Machine) handleStateDkgResponsesAwaitConfirmations(o *client.Operation
 		if err = json.Unmarshal(decryptedDealBz, &deal); err != nil {
 			return fmt.Errorf("failed to unmarshal deal")
 		}
+		if deal.Deal == nil {
+			return fmt.Errorf("deal from %s is empty", entry.Username)
+		}
 		dkgInstance.StoreDeal(entry.Username, &deal)
 	}
 
